@@ -309,7 +309,49 @@ class Interp:
             env[a.kwarg.arg] = self.mk_dict(kw)
         return env
 
+    _MUTATORS = {"append", "extend", "insert", "pop", "popitem", "clear", "update", "setdefault", "remove", "add", "discard", "sort", "reverse"}
+
+    def _mutates_param(self, fi, name):
+        """does the body of the function write into the object its parameter `name` is bound to?"""
+        for x_ in ast.walk(fi.node):
+            if isinstance(x_, ast.Subscript) and isinstance(x_.ctx, (ast.Store, ast.Del)) and isinstance(x_.value, ast.Name) and x_.value.id == name:
+                return True
+            if isinstance(x_, ast.AugAssign) and isinstance(x_.target, ast.Name) and x_.target.id == name:
+                return True
+            if isinstance(x_, ast.Call) and isinstance(x_.func, ast.Attribute) and x_.func.attr in self._MUTATORS and isinstance(x_.func.value, ast.Name) and x_.func.value.id == name:
+                return True
+        return False
+
+    def _stores_param(self, fi, name):
+        """is the object bound to parameter `name` kept beyond the call: assigned to an attribute, or returned?"""
+        def is_it(v_):
+            # the object itself, possibly chosen by a conditional expression / `p or default`
+            if isinstance(v_, ast.Name):
+                return v_.id == name
+            if isinstance(v_, ast.IfExp):
+                return is_it(v_.body) or is_it(v_.orelse)
+            if isinstance(v_, ast.BoolOp):
+                return any(is_it(z_) for z_ in v_.values)
+            return False
+
+        for x_ in ast.walk(fi.node):
+            if isinstance(x_, ast.Assign) and is_it(x_.value) and any(isinstance(t_, ast.Attribute) for t_ in x_.targets):
+                return True
+            if isinstance(x_, ast.Return) and x_.value is not None and is_it(x_.value):
+                return True
+        return False
+
     def eval_default(self, node, fi, st):
+        if isinstance(node, (ast.List, ast.Dict, ast.Set)) or (isinstance(node, ast.Call) and isinstance(node.func, ast.Name) and node.func.id in ("list", "dict", "set")):
+            # one container object is created when the function is defined and shared by every call that
+            # omits the argument: writing into it carries state from call to call
+            a_ = fi.node.args
+            pairs = list(zip([x.arg for x in (a_.posonlyargs + a_.args)][len(a_.posonlyargs + a_.args) - len(a_.defaults):], a_.defaults)) + [(x.arg, d) for x, d in zip(a_.kwonlyargs, a_.kw_defaults) if d is not None]
+            for pname, d in pairs:
+                if d is node and self._mutates_param(fi, pname):
+                    self.event("shape-conflict", node, st, what="hidden state: a mutable default argument is written to by the function (it persists between calls)", a=pname, b=fi.short)
+                elif d is node and self._stores_param(fi, pname):
+                    self.event("shape-conflict", node, st, what="hidden state: a mutable default argument is stored on the object (one container shared by every instance built with the default)", a=pname, b=fi.short)
         # defaults are constants / simple expressions evaluated in module scope
         fr = Frame(fi, None, (), len(st.pc), len(self.framestack))
         self.framestack.append(fr)
